@@ -480,6 +480,9 @@ func run(c *core.Ctx) error {
 		}
 		outs = append(outs, o)
 	}
+	if err := sx.PlannerContract(c, "c04"); err != nil {
+		return err
+	}
 	conformance(c, outs)
 	// upsidedown: KV snapshot + separately cached docCount (Upsidedown's two-step
 	// commit / two-step reader open), over gtreap and boltdb
